@@ -36,6 +36,7 @@ def concretize(case, variant=0, reads="all"):
     RL = _reads(names, variant)
     R = RL if reads == "all" else ""
     templates, data = {}, {}
+    named = []          # step index of the partial that was named after the second variable (C19)
 
     def build(i):
         """source of steps i.. until the matching close; returns (src, index of the close (or end), unwind).
@@ -80,20 +81,27 @@ def concretize(case, variant=0, reads="all"):
                 elif op == "with":
                     out.append(f"{{% with {n}: {_lit(v)} %}}{body}{{% endwith %}}{tail}")
                 elif op in ("include", "render"):
-                    templates["t_" + tag] = body
+                    tname = "t_" + tag
+                    if reads == "leaf" and len(names) > 1 and variant % 3 == 1 and names[1] not in templates and n == names[0]:
+                        # C19: a partial NAMED like another variable, bound `with .. as <alias>`: only the alias is bound inside,
+                        # the partial's own base name stays a global there
+                        tname = names[1]
+                        body = RL + body          # this partial reads too (its own base name among the rest)
+                        named.append(i)
+                    templates[tname] = body
                     form = variant % 3
                     if form == 2 and op == "render":
                         form = 0        # `render .. for .. as ..` also binds a forloop drop inside the partial (documented): not this family
                     if form == 0:
-                        out.append(f'{{% {op} "t_{tag}", {n}: {_lit(v)} %}}{tail}')
+                        out.append(f'{{% {op} "{tname}", {n}: {_lit(v)} %}}{tail}')
                     elif form == 1 and v != "nil":
                         data["_s_" + tag] = v
-                        out.append(f'{{% {op} "t_{tag}" with _s_{tag} as {n} %}}{tail}')
+                        out.append(f'{{% {op} "{tname}" with _s_{tag} as {n} %}}{tail}')
                     elif form == 2:
                         data["_" + tag] = [None if v == "nil" else v]
-                        out.append(f'{{% {op} "t_{tag}" for _{tag} as {n} %}}{tail}')
+                        out.append(f'{{% {op} "{tname}" for _{tag} as {n} %}}{tail}')
                     else:
-                        out.append(f'{{% {op} "t_{tag}", {n}: nil %}}{tail}')
+                        out.append(f'{{% {op} "{tname}", {n}: nil %}}{tail}')
                 elif op in ("include0", "render0"):
                     templates["t_" + tag] = body
                     out.append(f'{{% {op[:-1]} "t_{tag}" %}}{tail}')
@@ -113,6 +121,7 @@ def concretize(case, variant=0, reads="all"):
     glob = set(case["glob"])
     layer = lambda L: {n: f"{L}:{n}" for n in names} if L in glob else {}
     data.update(layer("rargs"))
+    concretize.named_step = named[0] if named else None
     return src, templates, data, {"matter": layer("matter") or None, "globals": layer("tglobals") or None}, layer("eglobals") or None
 
 
